@@ -11,8 +11,8 @@ func init() { register("C19", propC19) }
 
 func propC19() *Property {
 	return &Property{
-		ID:      "C19",
-		Decides: "R19.1 on a server session every successful return of Read/Write that can hand over bytes passes the per-user upload/download counter with the returned count (path-sensitive, all return paths incl. the left-over buffer path); R19.2 the per-user counters are registered under the user name of the cipher that authenticated the session; R19.3 the quota gate: the open response is queued only on the quota-OK edge, the refusal edge records statusQuotaExhausted and closes, checkQuota reads this session's policy and the metric group of the same user; R19.4 roll-up: in doRollUp each history record contributes to exactly one sink on every path through the loop body (kept as is / starts a new bucket / added to the open bucket), the open bucket is flushed after the loop, and roll-up writes only into records it allocated itself (records shared with snapshots are never mutated); R19.5 loading a dump adds max(0, stored - current) and never stores the value.; R19.6 every server session is created with its per-user upload/download counters attached (constructor, from the policy's user name; both creation sites pass the authenticated user's policy), so bytes an application writes before the session's first segment is processed are counted and the fields are not written concurrently with Read/Write (finding F8, repaired in /repo 8af67b3); R19.7 RegisterMetric uses the metric group that metricMap returned (LoadOrStore/Load), so concurrent first registrations of a user end in one shared set of counters",
+		ID:         "C19",
+		Decides:    "R19.1 on a server session every successful return of Read/Write that can hand over bytes passes the per-user upload/download counter with the returned count (path-sensitive, all return paths incl. the left-over buffer path); R19.2 the per-user counters are registered under the user name of the cipher that authenticated the session; R19.3 the quota gate: the open response is queued only on the quota-OK edge, the refusal edge records statusQuotaExhausted and closes, checkQuota reads this session's policy and the metric group of the same user; R19.4 roll-up: in doRollUp each history record contributes to exactly one sink on every path through the loop body (kept as is / starts a new bucket / added to the open bucket), the open bucket is flushed after the loop, and roll-up writes only into records it allocated itself (records shared with snapshots are never mutated); R19.5 loading a dump adds max(0, stored - current) and never stores the value.; R19.6 every server session is created with its per-user upload/download counters attached (constructor, from the policy's user name; both creation sites pass the authenticated user's policy), so bytes an application writes before the session's first segment is processed are counted and the fields are not written concurrently with Read/Write (finding F8, repaired in /repo 8af67b3); R19.7 RegisterMetric uses the metric group that metricMap returned (LoadOrStore/Load), so concurrent first registrations of a user end in one shared set of counters",
 		NotDecided: "totals over arbitrary timestamp histories, ordering after truncation, window sums, concurrent sessions racing with accounting (F8: the counters are attached by the input goroutine; bytes written before that are not counted — a timing fact), partial multi-chunk writes that fail midway (F10).",
 		Rules: []Rule{
 			{ID: "R19.1", Floor: 2, Text: "Session.Read/Write: server session, counter attached: no successful return with a possibly positive count is reachable without counter.Add(n)", Run: r19_1},
